@@ -1208,6 +1208,30 @@ fn scripted_histories(seed: u64, r: &mut Rng, st: &mut Stats) {
             }
         }
         emit_scan(&mut w, iv, BASE, 1000, true, r, st);
+        // the Sapling tree holds a wallet note below its oldest checkpoint: no height qualifies
+        emit_trunc(&mut w, BASE + 10, r, st);
+        st.bump("wallet_histories");
+    }
+    // the same chain without wallet notes: the rewind resets the Sapling tree to its subtree roots
+    // (ResetToSubtreeRoots) while the other pools truncate to their checkpoint; then rescan
+    {
+        let iv = 5;
+        let mut w = mk_world(seed, 1_000_004, iv);
+        for h in 0..150u32 {
+            if h % 5 == 0 {
+                w.push_block(&[(1, false)]);
+            } else {
+                w.push_block(&[(0, false)]);
+            }
+        }
+        emit_scan(&mut w, iv, BASE, 1000, false, r, st);
+        if let Some(got) = emit_trunc(&mut w, BASE + 10, r, st) {
+            w.fork_at(got);
+            for _ in 0..12 {
+                w.push_block(&[(0, true), (1, false)]);
+            }
+            emit_scan(&mut w, iv, got + 1, 1000, true, r, st);
+        }
         st.bump("wallet_histories");
     }
     // C06-F2: rewind into a completed subtree whose hash an earlier frontier insertion cached.
